@@ -54,7 +54,12 @@ class RecKernel:
 
     def gate(self, name, qubits, *a, **k):
         qs = tuple(qubits) if isinstance(qubits, (list, tuple)) else (qubits,)
-        self.ops.append(('gate', name, qs))
+        if name == 'cz' and len(qs) == 2:      # kernel.gate('cz', [c, t]) is the same call as kernel.cz(c, t)
+            self.ops.append(('cz', qs))
+        elif name == 'barrier':
+            self.ops.append(('barrier', qs))
+        else:
+            self.ops.append(('gate', name, qs))
 
     def cz(self, a, b):
         self.ops.append(('cz', (a, b)))
@@ -62,7 +67,7 @@ class RecKernel:
     def barrier(self, qubits):
         self.ops.append(('barrier', tuple(qubits)))
 
-    def wait(self, qubits, duration):
+    def wait(self, qubits, duration=0):
         self.ops.append(('wait', tuple(qubits), duration))
 
     # OpenQL convenience methods that mean the same as a named gate
